@@ -636,6 +636,95 @@ def check_split_pairs(ctx: Ctx, Time, rng):
                                 f"({which}) compare equal and hash differently", case)
 
 
+def check_format_commutes(ctx: Ctx, Time, rng):
+    """format access commutes with indexing: t.<fmt>[i] is t[i].<fmt>, for every format, on arrays that hold distinct epochs
+    1 ... 39 microseconds apart (closer than a single float Julian date resolves) and equal epochs, and on what is derived
+    from them"""
+    from datetime import datetime, timedelta
+    from midgard.data import _time
+
+    fmts = list(_time._FORMATS["TimeFormat"].keys())
+    n = rng.randint(2, 7)
+    us = [rng.choice([0, 1, 2, 7, 20, 39, 40, 250]) for _ in range(n)]
+    base = datetime(2017, 9, 4, 6, 0, 0) + timedelta(days=rng.randint(0, 400), seconds=rng.randint(0, 86399))
+    if rng.random() < 0.5:
+        t, how = Time([base + timedelta(microseconds=u) for u in us], fmt="datetime", scale=rng.choice(["utc", "gps", "tai"])), "datetime"
+    else:
+        t, how = Time(np.full(n, 2458000.5 + rng.randint(0, 300)), val2=np.array([0.25 + u * 1e-6 / 86400 for u in us]), fmt="jd",
+                      scale=rng.choice(["utc", "gps", "tai"])), "jd"
+    m = np.array([rng.random() < 0.7 for _ in range(n)])
+    derived = [("t", t), ("t[::-1]", t[::-1]), ("t[mask]", t[m]), ("t[[n-1, 0, n-1]]", t[[n - 1, 0, n - 1]]), ("t[1:]", t[1:]),
+               ("t.tai", t.tai), ("t.gps", t.gps), ("t.subset", t.subset([0, n - 1], {}))]
+    close = sum(1 for a in range(n) for b in range(a) if 0 < abs(us[a] - us[b]) < 40)
+    ctx.count("format-commutes:arrays-with-epochs-closer-than-40us" if close else "format-commutes:arrays-without-close-epochs")
+    for name, x in derived:
+        k = len(np.atleast_1d(x.jd1))
+        case = {"kind": "format", "built-from": how, "scale": t.scale, "microseconds": us, "derived": name}
+        for f in fmts:
+            try:
+                whole = np.asarray(getattr(x, f))
+            except ValueError:
+                continue     # format of another scale
+            for i in range(k):
+                single = np.asarray(getattr(x[i], f))
+                w = whole[..., i]
+                same = bool(np.all(w == single)) if w.dtype == object or w.dtype.kind in "US" else np.array_equal(w, single)
+                if not same:
+                    ctx.violate(f"format-commutes:{f}", f"{name}: epoch {i} of {k} (microseconds {us}): t.{f}[i] = {w!r}, t[i].{f} = {single!r}", case)
+                    break
+        if x.fmt == "datetime" and k:
+            vals = np.atleast_1d(np.asarray(x))
+            for i in range(k):
+                if vals[i] != np.asarray(x[i]).item():
+                    ctx.violate("format-commutes:val", f"{name}: stored value {i} of a datetime array is {vals[i]!r}, t[i] holds {np.asarray(x[i]).item()!r}", case)
+                    break
+
+
+def check_field_padding(ctx: Ctx, Time, rng):
+    """time fields of a dataset padded in one extend (one memo): every padded field is its own epochs with the padding rows
+    spliced in at the end (append) or in front (prepend) - values, jd1 and jd2"""
+    from datetime import datetime
+    from midgard.data import dataset
+
+    n1, n2 = rng.randint(1, 5), rng.randint(1, 5)
+    scales = [rng.choice(["utc", "gps", "tai"]) for _ in range(3)]
+    if rng.random() < 0.6:
+        scales = [scales[0]] * 3
+    mk = lambda j, n: np.array([58000.0 + 10 * j + k + (k + 1) / 64.0 for k in range(n)])
+    names = ["ta", "tb", "tc"][:rng.randint(2, 3)]
+    for mode in ("append", "prepend"):
+        d1 = dataset.Dataset(n1)
+        src = {}
+        for j, nm in enumerate(names):
+            d1.add_time(nm, val=mk(j, n1), scale=scales[j], fmt="mjd")
+            src[nm] = d1[nm]
+        d1.add_float("x", val=np.arange(n1, dtype=float))
+        d2 = dataset.Dataset(n2)
+        d2.add_float("x", val=np.arange(n2, dtype=float))
+        case = {"kind": "field-padding", "mode": mode, "rows": [n1, n2], "fields": names, "scales": scales[:len(names)]}
+        try:
+            if mode == "append":
+                d1.extend(d2)
+                out = d1
+            else:
+                d2.extend(d1)
+                out = d2
+        except Exception as e:  # noqa
+            ctx.violate("field-padding-raises:" + mode, f"{type(e).__name__}: {e}", case)
+            continue
+        ctx.count(f"field-padding:{mode}:{'same-scale' if len(set(scales[:len(names)])) == 1 else 'mixed-scales'}:{'same-count' if n1 == n2 else 'other-count'}")
+        for j, nm in enumerate(names):
+            got = out[nm]
+            pad = Time([datetime.min] * n2, scale=scales[j], fmt="datetime")
+            parts = (src[nm], pad) if mode == "append" else (pad, src[nm])
+            want = [np.concatenate([np.atleast_1d(np.asarray(getattr(q, a), dtype=float)) for q in parts]) for a in ("mjd", "jd1", "jd2")]
+            have = [np.atleast_1d(np.asarray(got, dtype=float)), np.atleast_1d(got.jd1), np.atleast_1d(got.jd2)]
+            if not all(w.shape == h.shape and np.array_equal(w, h) for w, h in zip(want, have)):
+                ctx.violate("field-padding:" + mode, f"time field {nm!r} after extend: values {have[0].tolist()}, expected its own epochs with "
+                            f"{n2} padding rows {want[0].tolist()}", case)
+                break
+
+
 def check_immutable(ctx: Ctx, x, case):
     before = (np.asarray(x).tolist(), np.asarray(x.jd1).tolist(), np.asarray(x.jd2).tolist(), x.fmt)
     for what, f in (("setitem", lambda: x.__setitem__(0 if np.ndim(x) else (), 1.0)),
@@ -928,6 +1017,10 @@ def _run_all(ctx: Ctx, Time, rng):
     check_column_indices(ctx, Time)
     for _ in range(ctx.budget(20, 300)):
         check_split_pairs(ctx, Time, rng)
+    for _ in range(ctx.budget(40, 600)):
+        check_format_commutes(ctx, Time, rng)
+    for _ in range(ctx.budget(40, 600)):
+        check_field_padding(ctx, Time, rng)
     # derivation paths to the same epochs
     for _ in range(ctx.budget(120, 2000)):
         kind = rng.choice(["mjd", "gps_ws", "leap"])
